@@ -136,6 +136,10 @@ def same_selection_at_decision_time(ctx, rule='C06-R2'):
 
 def _selection_of(v):
     from sa.rules.baseheight import CBH
+    if tag(v) == 'phi':
+        # the routine applied to one selection or another, chosen by early returns: the routine applied to the choice
+        from sa.rules.tablemodel import _phi_alternatives
+        v = T.anti_unify(_phi_alternatives(v))
     if tag(v) == 'call' and v[1] == ('g', CBH) and v[2]:
         vals = T.peel(v[2][0])
         if tag(vals) == 'col' and tag(vals[1]) == 'mask':
